@@ -34,6 +34,9 @@ ASSUMPTIONS = ["integer-millisecond clock (sub-millisecond float behaviour is no
 UNREG_BASE = 1_000_000   # trace scenarios numbered from here unregister services while answers are queued
 LATE_BASE = 2_000_000    # ... from here run on a loop whose timers fire a seeded 0..LATE ms late (oracle only: the model's loop facts exclude it)
 LATE = 3
+V6_BASE = 3_000_000      # ... from here every source is a link-local IPv6 peer (4-tuple sockaddr: the listener passes its scope id on, the
+                         # responder compares its own scope-less records with scope-less copies of the known answers), mostly truncated
+                         # trains whose packets list DIFFERENT known answers
 
 GRID = [0, 0, 1, 20, 20, 60, 119, 120, 121, 200, 380, 499, 500, 501, 880, 999, 1000, 1001, 1120, 1200]
 T0 = vsim.T0
@@ -345,7 +348,8 @@ def run_cls_stream(ctx, res):
 
 def run_scenario(seed, sc_no):
     """-> dict(tr, uni, zc, errors, infos, actions); fully determined by (seed, sc_no)"""
-    late = LATE if isinstance(sc_no, int) and sc_no >= LATE_BASE else 0
+    late = LATE if isinstance(sc_no, int) and LATE_BASE <= sc_no < V6_BASE else 0
+    v6_mode = isinstance(sc_no, int) and sc_no >= V6_BASE
     sim = vsim.Sim(seed="%s/%s" % (seed, sc_no), maxdelay=0, max_late=late)
     rng = C.rng_for(seed, "c12", "tr", sc_no)
     jrng = C.rng_for(seed, "c12", "jitter", sc_no)
@@ -385,7 +389,11 @@ def run_scenario(seed, sc_no):
         box.update(tr=tr, uni=uni, infos=infos, zc=zc)
         actions = []
         qid = [rng.randrange(1, 60000)]
-        srcs = ["10.0.0.9", "10.0.0.8"]
+        srcs = ["10.0.0.9", "10.0.0.8"] if not v6_mode else [("fe80::9", 0, 3), ("fe80::8", 0, 3)]
+
+        def sa(src_, port_):
+            """the sockaddr handed to `datagram_received`: (ip, port), or (ip, port, flowinfo, scope id) for an IPv6 peer"""
+            return (src_, port_) if isinstance(src_, str) else (src_[0], port_, src_[1], src_[2])
 
         def next_id():
             qid[0] = (qid[0] + 1) % 65536 or 1
@@ -453,7 +461,7 @@ def run_scenario(seed, sc_no):
                 tr.pokes.append((now, uni.id(r)))
                 actions.append(("poke", now - T0, uni.id(r), age))
             src = rng.choice(srcs)
-            port = 5353 if rng.random() < 0.85 else 40000
+            port = 5353 if (v6_mode or rng.random() < 0.85) else 40000   # (IPv6 peers: multicast replies only -- the simulated host's socket is IPv4)
             probe = rng.random() < 0.12
             if rng.random() < 0.22:
                 # a truncated train exactly as `DNSOutgoing.packets()` emits it: one PTR question and so many known answers
@@ -467,13 +475,13 @@ def run_scenario(seed, sc_no):
                 off = 0
                 for j, data in enumerate(datas):
                     if j == 0:
-                        host.deliver(data, (src, port))
+                        host.deliver(data, sa(src, port))
                     else:
                         off += rng.choice([0, 0, 1, 5, 30, 100, 100, 399, 400, 401, 450, 499, 500, 501])
-                        sim.loop.call_later(off / 1000.0, host.deliver, data, (src, port))
+                        sim.loop.call_later(off / 1000.0, host.deliver, data, sa(src, port))
                     actions.append(("tcq-lib", now - T0 + off, src, port, "%d bytes, %s" % (len(data), data[:12].hex())))
                 box["long_trains"] = box.get("long_trains", 0) + 1
-            elif rng.random() < 0.3:
+            elif rng.random() < (0.75 if v6_mode else 0.3):
                 # a truncated train
                 npk = rng.choice([1, 2, 2, 3, 4])
                 same = rng.random() < 0.3
@@ -484,18 +492,19 @@ def run_scenario(seed, sc_no):
                     if same and first is not None:
                         data = first
                     else:
-                        data, _qs, _qus = R.build_query(rng, infos, uni, next_id(), tc=not last_plain, probe=probe and j == 0, known_p=0.6)
+                        data, _qs, _qus = R.build_query(rng, infos, uni, next_id(), tc=not last_plain, probe=probe and j == 0,
+                                                        known_p=0.9 if v6_mode else 0.6, **({"qu_p": 0} if v6_mode else {}))
                         first = first or data
                     s2 = src if rng.random() < 0.85 else rng.choice(srcs)
                     if j == 0:
-                        host.deliver(data, (s2, port))
+                        host.deliver(data, sa(s2, port))
                     else:
                         off += rng.choice([0, 1, 100, 399, 400, 401, 450, 499, 500, 501, 30])
-                        sim.loop.call_later(off / 1000.0, host.deliver, data, (s2, port))
+                        sim.loop.call_later(off / 1000.0, host.deliver, data, sa(s2, port))
                     actions.append(("tcq", now - T0 + off, s2, port, data.hex()))
             else:
-                data, _qs, _qus = R.build_query(rng, infos, uni, next_id(), probe=probe)
-                host.deliver(data, (src, port))
+                data, _qs, _qus = R.build_query(rng, infos, uni, next_id(), probe=probe, **({"qu_p": 0} if v6_mode else {}))
+                host.deliver(data, sa(src, port))
                 actions.append(("q", now - T0, src, port, data.hex()))
             if unreg_mode and len(registered) >= 2 and urng.random() < 0.45:
                 # the registry changes while the answers to this query (and earlier ones) are queued: offsets around the jitter,
@@ -530,6 +539,9 @@ def spec_classes(tr, b, parsed_by_data):
     # "the host saw the record multicast": the copy in the cache whatever scope id it carries (`seen_blind`, provided by reply_common
     # once the IPv6-only host of wp-C11DEEP is merged: D29); until then the store entry under the record's own key
     seen = {i: (c, ttl) for (i, c, ttl) in asm.get("seen_blind", asm["seen"])}
+    for rid_, (t_s, ttl_s) in (b.get("sight") or {}).items():
+        if rid_ not in seen or seen[rid_][0] < t_s:
+            seen[rid_] = (t_s, ttl_s)  # a later sighting than the cache admits (see `check_trace_O`)
     probe = any(p["num_auth"] > 0 for p in pkts)
     known = {}
     for p in pkts:
@@ -658,10 +670,39 @@ def check_trace_O(res, box, case):
     # unregistration have other candidate answers), so the table is filled in block order and consulted at each assembly
     parsed_by_data = {}
     asms = []
+    # "the host saw the record multicast": every response datagram the listener processed (not one its duplicate guard drops: the same
+    # bytes as the last processed datagram, less than a second after it -- C16) is a sighting of each record in it with a non-zero TTL,
+    # at the datagram's arrival.  Computed here from what was delivered, so a cache whose `created` is NOT moved by a later sighting
+    # (the one-second rule would then count from an older one) is seen: `spec_classes` takes the later of this and the cache snapshot
+    from zeroconf._protocol.incoming import DNSIncoming
+
+    sight = {}
+    guard = None  # (data, time, was a query with a QU question) of the last datagram the listener processed
+    pokes = sorted(tr.pokes)  # the scenario rewrote the cache entry itself ("seen some time ago"): from then on the snapshot is the truth
+    npoke = 0
     for i, b in enumerate(blocks):
+        while npoke < len(pokes) and pokes[npoke][0] <= b["t"]:
+            sight.pop(pokes[npoke][1], None)
+            npoke += 1
+        if b["kind"] == "rx":
+            data, t = b["data"], b["t"]
+            if len(data) <= 8966:
+                # (what the listener processed before the trace began is unknown: until a datagram with other bytes than the first
+                #  one arrives, a datagram may or may not have been dropped as a repeat -- it is then not counted as a sighting)
+                unsure = guard is None or (guard[3] and guard[0] == data)
+                dropped = guard is not None and guard[0] == data and t - 1000 < guard[1] and not guard[2]
+                if not dropped:
+                    valid_, isq_, qubits_, _pkt = b["pq"]  # (parsed outside the listener when the block was recorded)
+                    guard = (data, t, bool(qubits_.startswith("1 ") and not qubits_.endswith("-")), unsure)
+                    if valid_ and not isq_ and not unsure:
+                        for r in DNSIncoming(data).answers():
+                            rid = tr.uni.ids.get(r)
+                            if rid is not None and r.ttl > 0 and (t, rid) not in tr.pokes:
+                                sight[rid] = (t, int(r.ttl))
         if b["kind"] == "rx" and b.get("parsed"):
             parsed_by_data[b["data"]] = b["parsed"]
         if b["asm"] and b["asm"]["npkts"]:
+            b["sight"] = dict(sight)
             asms.append((i, b, spec_classes(tr, b, parsed_by_data)))
     mcasts = []  # (block index, time, answers, adds)
     for i, b in enumerate(blocks):
@@ -829,7 +870,7 @@ def check_trace_O(res, box, case):
 
 
 def trace_case(seed, sc_no, box):
-    return {"stream": "tr", "seed": seed, "scenario": sc_no, "unregisters": sc_no >= UNREG_BASE if isinstance(sc_no, int) else False,
+    return {"stream": "tr", "seed": seed, "scenario": sc_no, "unregisters": (UNREG_BASE <= sc_no < LATE_BASE) if isinstance(sc_no, int) else False,
             "services": [(i.name, i.server, i.host_ttl, i.other_ttl) for i in box.get("infos", [])], "actions": box.get("actions")}
 
 
@@ -839,7 +880,7 @@ def run_trace_stream(ctx, res, n, only=None, n_extra=None):
     # (the two extra families are not multiplied when the search is widened: they are slower per scenario)
     ne = n if n_extra is None else n_extra
     todo = only if only is not None else [(ctx["seed"], k) for k in range(n)] + [(ctx["seed"], UNREG_BASE + k) for k in range(ne // 8)] + \
-        [(ctx["seed"], LATE_BASE + k) for k in range(ne // 16)]
+        [(ctx["seed"], LATE_BASE + k) for k in range(ne // 16)] + [(ctx["seed"], V6_BASE + k) for k in range(ne // 16)]
     for (seed, sc_no) in todo:
         box = run_scenario(seed, sc_no)
         if "tr" not in box:
@@ -882,6 +923,8 @@ def run_trace_stream(ctx, res, n, only=None, n_extra=None):
                 res.nontriv("tr-unreg/%d/%d" % (sum(1 for b in tr.blocks if b["kind"] == "rm" and b.get("hit")), len(box["unregs"])))
         if box.get("late"):
             res.count("tr:late-timer-scenarios (oracle only)")
+        if isinstance(sc_no, int) and sc_no >= V6_BASE:
+            res.count("tr:ipv6-peer-scenarios")
         if model is not None and not box.get("late"):
             parts = model[idx].split(" | ")
             head, mobs = parts[0], parts[1:]
